@@ -162,6 +162,7 @@ Example C04_emit_roundtrip_witness :
   end.
 Proof. vm_compute. repeat split; reflexivity. Qed.
 Local Close Scope string_scope.
+From Coq Require Import List.
 
 (* The statement at full strength for the modelled writer: on the decidable class `writable` (every port of a
    written module has a direction and lies pin by pin on the cable of its own name; emit succeeds - which excludes
@@ -171,3 +172,40 @@ Local Close Scope string_scope.
 Definition C04_emit_roundtrip_full : Prop :=
   forall o n, wf_nv n -> writable o n = true ->
     exists d n', emit o n = WOk d /\ elab d = Ok n' /\ same_conn o n n'.
+
+(* Per-construct lemmas of the writer model, lifting the mechanism theorems above to Fmt/VEmit.v / Fmt/VElab.v. *)
+From SV Require Import Proofs.VEmitLemmas.
+
+(* a cable declaration: the item emit writes for a cable of width >= 1 is read by the reader model's
+   parse_cable_declaration (VElab.wire_decl), in a module that does not have the cable yet, as exactly that cable -
+   name, lower index, width, type, attributes (lifts C04_decl_inverse) *)
+Theorem C04_cable_decl_emit_inverse : forall c d,
+  (1 <= nc_width c)%nat -> has_glob (nc_name c) = false -> find_cable (nc_name c) d = None ->
+  exists rg, emit_cable c = WOk (IWire (nc_type c) rg [nc_name c] (nc_attrs c)) /\
+    wire_decl (nc_type c) rg (nc_attrs c) [nc_name c] d =
+      Ok (set_cables d (ed_cables d ++
+            [{| ec_name := nc_name c;
+                ec_b := {| b_lo := nc_lower c; b_items := seq 0 (nc_width c); b_next := nc_width c |};
+                ec_type := Some (nc_type c); ec_attrs := dict_of (nc_attrs c) |}])).
+Proof. exact emit_cable_elab. Qed.
+Print Assumptions C04_cable_decl_emit_inverse.
+
+(* a header port of the class `writable` is written by its name alone *)
+Theorem C04_header_plain : forall d p,
+  port_plain d p = true -> exists nm, np_label p = LName nm /\ emit_header_port d p = WOk (HPort None None nm).
+Proof. exact header_plain. Qed.
+Print Assumptions C04_header_plain.
+
+(* one named port connection of an instance (lifts C04_port_emit_inverse to emit_conn): pins in port order on the
+   wires cs (any cables, any order), r unconnected pins at the high end: the connection written - empty, id, id[i],
+   id[h:l] or {...} as the composer chooses - is read back and aligned so that the wire of pin k is on pin k again *)
+Theorem C04_conn_emit_inverse : forall d iname p nm (cs : list wire) (r : nat) (pins : list nat),
+  np_label p = LName nm -> (1 <= np_width p)%nat ->
+  pin_wires d (EInst iname (np_label p)) p = map Some cs ++ repeat None r ->
+  (forall c i, In (c, i) cs -> in_cable (def_env d) c i) ->
+  Permutation pins (seq 0 (length cs + r)) ->
+  exists txt t,
+    emit_conn d iname p = WOk (nm, ptext_expr d txt) /\ read_port (def_env d) txt = Some t /\
+    align Z.of_nat pins t = Some (combine (rev cs) (rev (seq 0 (length cs)))).
+Proof. exact conn_emit_inverse. Qed.
+Print Assumptions C04_conn_emit_inverse.
